@@ -2,6 +2,7 @@ package checks
 
 import (
 	"fmt"
+	"strings"
 	"testing"
 
 	"pgregory.net/rapid"
@@ -180,6 +181,9 @@ func TestC03Rapid(t *testing.T) {
 		if shape == "doc:wide" {
 			g.PosLits = []string{"1", "2", "9", "10", "11", "12", "13", "3"} // two-digit positions
 		}
+		if shape == "doc:broad" {
+			g.PosLits = []string{"1", "2", "15", "16", "17", "18", "31", "32", "33", "34"} // around 16 and 32
+		}
 		e := g.PosExpr(ctx)
 		l := &harness.Live{Property: "C03", Check: "C03/positional", Doc: doc, Ctx: ctx, AST: e, Expr: renderDrawn(rt, e), Flavour: flavourOf(rt)}
 		info, f := oracleC03(l)
@@ -214,10 +218,30 @@ func TestC03Enum(t *testing.T) {
 	tests := []xast.NodeTest{{Kind: "name", Local: "a"}, {Kind: "name", Local: "b"}, {Kind: "wild"}, {Kind: "node"}, {Kind: "text"}}
 	boolPred := &xast.Path{Steps: []interface{}{&xast.Step{Axis: "child", Test: xast.NodeTest{Kind: "wild"}, Abbr: true}}}
 	docs := richDocs(6, harness.EnvInt("VERIF_SEED", 1))
+	// one broad document: 40 children under the document element, 18 under one of them
+	// (block buffers of 16 and 32 entries end inside these sibling lists)
+	{
+		var sb strings.Builder
+		sb.WriteString("<a>")
+		for i := 0; i < 40; i++ {
+			switch {
+			case i == 7:
+				sb.WriteString("<b>" + strings.Repeat("<a/>", 18) + "</b>")
+			case i%3 == 0:
+				sb.WriteString("<b><a/></b>")
+			case i%5 == 0:
+				sb.WriteString("{t}")
+			default:
+				sb.WriteString("<a x='1'/>")
+			}
+		}
+		sb.WriteString("</a>")
+		docs = append(docs, xdoc.MustParse(sb.String()))
+	}
 	shard, shards := harness.Shard()
 	var total int64
 	idx := 0
-	for n := 1; n <= 6; n++ {
+	for _, n := range []int{1, 2, 3, 4, 5, 6, 16, 17, 18, 33} {
 		for _, pf := range posForms(fmt.Sprint(n)) {
 			for _, nt := range tests {
 				step := func(extra ...xast.Expr) *xast.Step {
